@@ -68,6 +68,24 @@ def specs(tier, seed):
                                 "pkts": [[1000, "C0", "S", "twinA:%d" % k, 500], [3100, "C0", "S", "twinB:%d" % k, 500],
                                          [9000, "C0", "S", "rand", 100]],
                                 "dur_ms": 20000, "label": "overwrite%d/%s" % (k, qt)})
+    # late copy at the sequence-number wrap: seven small downstream packets (seq 1..7), then a crafted multi-fragment one
+    # (seq 0) whose image carries complete zlib streams of a never-offered frame at its fragment boundaries; copies of
+    # the answer that carried packet 7 arrive between the fragments of packet 8.  Only the "recently seen sequence
+    # number" window keeps the stale fragment from being taken for a new packet.
+    for i in range(8 if tier == "quick" else 64):
+        F = [100, 120, 150, 200][i % 4]
+        gap = [40, 80, 200][i % 3]
+        t7 = 400 + 6 * 300
+        pk = [[400 + 300 * j, "S", "C0", "text", 30 + j] for j in range(7)] + \
+            [[t7 + gap, "S", "C0", "embed:%d" % F, 3 * F + 60 + 20 * (i % 5)]] + \
+            [[t7 + gap + 3000, "S", "C0", "rand", 50], [t7 + gap + 3500, "C0", "S", "rand", 300]]
+        # ONE late copy per run (each further copy would restart the reassembly again), timed to land between the first
+        # two fragments of packet 8 - only then is its DNS id still among the client's last three
+        delays = [gap * 1000 + [1300, 1700, 2100, 2500, 900, 2900, 1500, 1900][(i // 4 + i) % 8]]
+        out.append({"seed": seed * 100000 + 97000 + i,
+                    "sess": {"qtype": ["NULL", "PRIVATE"][i % 2], "lazy": 1, "fragsize": F},
+                    "relay": {"dup_down": [{"dseq": 7, "delays_us": delays}]}, "pkts": pk, "dur_ms": 15000,
+                    "label": "wrapdup%d" % i})
     return out
 
 
